@@ -972,9 +972,9 @@ inductive IntLit : Bytes → Bool → Nat → Prop
 def ExprText (v : Bytes) : Prop :=
   numberLike v = false ∧ ∃ e', parseText v = some (some e') ∧ WF e' = true ∧ LitsOK e'
 
-/-- "Variables hold nothing, an integer literal, a name, or an expression." -/
+/-- "Variables hold nothing, an integer literal, a name, an expression, or only blanks." -/
 def ValOK (v : Bytes) : Prop :=
-  v = [] ∨ (∃ neg k, IntLit v neg k) ∨ validName v = true ∨ ExprText v
+  v = [] ∨ (∃ neg k, IntLit v neg k) ∨ validName v = true ∨ ExprText v ∨ IsBlanks v
 
 def EnvOK (env : Env) : Prop := ∀ n, ValOK (env.get n)
 
